@@ -16,3 +16,14 @@ MUTANTS = [
     dict(id="M10_swallow_failure", groups="scheduler", file=H, old="        _ = futures[future_id].result()  # raise exception by calling the future\n        logger.debug(\"Remove ExecNode {} from the graph\", future_id)\n        runnable_xns_ids |= graph.remove_root_node(future_id)\n\n    return done, running, runnable_xns_ids\n\n\nasync def", new="        logger.debug(\"Remove ExecNode {} from the graph\", future_id)\n        runnable_xns_ids |= graph.remove_root_node(future_id)\n\n    return done, running, runnable_xns_ids\n\n\nasync def", expect={"C14"}),
     dict(id="M11_active_ignores_key", groups="scheduler", file=H, old="return bool(xn.active.result(results))", new="return bool(results[xn.active.id])", expect={"C10"}),
 ]
+
+import glob, json, os
+_HERE = os.path.dirname(os.path.dirname(os.path.abspath(__file__)))
+ALLG = "scheduler,values,dagproto,threads,digraph"
+for m in MUTANTS:
+    m["groups"] = ALLG
+SEEDED = []
+for d in sorted(glob.glob(os.path.join(_HERE, "seeded", "C??_?"))):
+    meta = json.load(open(os.path.join(d, "meta.json")))
+    SEEDED.append(dict(id="S_" + os.path.basename(d), groups=ALLG, patch=os.path.join(d, "patch.diff"), expect={meta["property"]}, demo=os.path.join(d, "demo.py")))
+MUTANTS = MUTANTS + SEEDED
